@@ -14,12 +14,18 @@ replay: every terminal state is run by the real DocTest.run; at the exit
         at entry and no event loop may be running.
 import: specs/PathCtx.tla models PythonPathContext around an import by path
         whose module changes sys.path itself (insert at the front, append, drop
-        the first / the last pre-existing entry, remove the temporary entry),
+        the first / the last pre-existing entry, remove the temporary entry,
+        bind sys.path to a new list object),
         succeeding or raising; invariant Restored (sys.path afterwards = the
         original list as changed by the module only).  Every behaviour is
         replayed into the real context manager; import_module_from_path on real
         files is exercised in harness/c17.py and through the pre-import of the
         run (success and five failure kinds).
+capture: specs/Capture.tla models CaptureStdout / TeeStringIO (construct, enter,
+        print, leave; two objects; suppressing or teeing; enabled or not) with
+        the invariants PartsExact, NothingLostOrTwice, SuppressHides, TeeShows,
+        RestoredLIFO, DisabledInert; every behaviour is stepped through the real
+        objects and the projected state compared after each step.
 """
 from . import common, runlib
 
@@ -48,6 +54,8 @@ def _apply_op(op):
     elif op == 'rmtmp':
         if 'TMP' in sys.path:
             sys.path.remove('TMP')
+    elif op == 'rebind':
+        sys.path = list(sys.path)          # a new list object with the same entries (`sys.path = [...] + sys.path` idiom)
 
 
 def pathctx_phase(out, tier):
@@ -64,6 +72,7 @@ def pathctx_phase(out, tier):
         raise common.MachineryError('spec-level invariant %s violated on the unchanged spec (PathCtx):\n%s' % (res.violated, res.stdout[-2000:]))
     n = 0
     real = list(sys.path)
+    real_obj = sys.path
     for raw in sorted(common.iter_printed(res)):
         index, ops, raised, path, ghost, result = tlaval.parse_value(raw)
         given = 0 if index == 0 else -1
@@ -86,6 +95,7 @@ def pathctx_phase(out, tier):
                     got_result = type(ex).__name__
                 got_path = list(sys.path)
         finally:
+            sys.path = real_obj
             sys.path[:] = real
         n += 1
         out.traces += 1
@@ -100,11 +110,110 @@ def pathctx_phase(out, tier):
                           {'index_given': given, 'module_operations': list(ops), 'import_raised': raised, 'disagreements': [(f, repr(a), repr(b)) for f, a, b in bad]})
     out.extra['pathctx_behaviours_replayed'] = n
     common.cleanup_scratch()
-    for dev in ('NoElif', 'NoRecoverOnError'):
+    for dev in ('NoElif', 'NoRecoverOnError', 'RememberedList'):
         r2 = common.run_tlc('PathCtx', pathctx_cfg(maxops, deviation=(dev,)), timeout=300)
         common.cleanup_scratch()
         if not r2.violated:
             raise common.MachineryError('vacuity control: deviation %s does not violate any invariant of PathCtx' % dev)
+        out.extra.setdefault('deviations_rejected', {})[dev] = r2.violated
+
+
+CAPTURE_INVS = ['PartsExact', 'NothingLostOrTwice', 'SuppressHides', 'TeeShows', 'RestoredLIFO', 'DisabledInert']
+
+
+def capture_cfg(maxops, deviation=('Emit',)):
+    return '\n'.join(['SPECIFICATION Spec', 'CONSTANTS', ' MaxOps = %d' % maxops, ' Deviation = {%s}' % ', '.join('"%s"' % d for d in deviation)]
+                     + ['INVARIANT %s' % i for i in CAPTURE_INVS] + ['CHECK_DEADLOCK FALSE', ''])
+
+
+def _capture_one(raw):
+    """one behaviour of Capture.tla stepped through real CaptureStdout objects; the projected state is compared after every step"""
+    import io
+    import sys
+    from . import tlaval
+    from xdoctest.utils import util_stream
+    suppress, enabled, ops, hist = tlaval.parse_value(raw)
+    suppress = list(suppress.values()) if isinstance(suppress, dict) else list(suppress)
+    enabled = list(enabled.values()) if isinstance(enabled, dict) else list(enabled)
+    base = io.StringIO()
+    real = sys.stdout
+    caps = {}
+    bad = []
+
+    def txt(t):
+        return None if t is None else [int(x) for x in t.split()]
+
+    def name(stream):
+        if stream is base:
+            return 'base'
+        for c, o in caps.items():
+            if stream is o.cap_stdout:
+                return 'cap%d' % c
+        return 'other'
+    sys.stdout = base
+    try:
+        for k, (op, exp) in enumerate(zip(ops, hist)):
+            kind, arg = op
+            if kind == 'new':
+                caps[arg] = util_stream.CaptureStdout(suppress=suppress[arg - 1], enabled=enabled[arg - 1])
+            elif kind == 'enter':
+                caps[arg].__enter__()
+            elif kind == 'exit':
+                caps[arg].__exit__(None, None, None)
+            elif kind == 'print':
+                print(arg)
+            exp = dict(exp)
+            got = {'out': name(sys.stdout), 'base': txt(base.getvalue())}
+            for c in (1, 2):
+                o = caps.get(c)
+                got['t%d' % c] = [-1] if (o is None or o.text is None) else txt(o.text)
+                got['n%d' % c] = 0 if o is None else len(o.parts)
+            want = {'out': exp['out'], 'base': list(exp['base']), 't1': list(exp['t1']), 't2': list(exp['t2']), 'n1': exp['n1'], 'n2': exp['n2']}
+            if got != want:
+                bad.append(('state_after_step_%d_%s' % (k + 1, kind), want, got))
+                break
+    finally:
+        sys.stdout = real
+        for o in caps.values():
+            o.started = False          # (the finaliser of a started object would put ITS stream back later)
+    info = {'key': raw[:200]}
+    if bad:
+        info.update(bad=[(f, repr(a), repr(b)) for f, a, b in bad], ops=[list(o) for o in ops], suppress=suppress, enabled=enabled)
+    return info
+
+
+def capture_phase(out, tier):
+    """specs/Capture.tla: CaptureStdout / TeeStringIO as a state machine (construct, enter, print, leave; two objects, suppressing or
+    teeing, enabled or not); every behaviour of MaxOps steps is stepped through the real objects"""
+    maxops = 6 if tier == 'quick' else 8
+    res = common.run_tlc('Capture', capture_cfg(maxops), printed=True, timeout=1800)
+    common.tlc_must_pass(res, 'Capture')
+    out.add_tlc(res, 'exhaustive:Capture<=%d steps' % maxops)
+    if res.violated:
+        raise common.MachineryError('spec-level invariant %s violated on the unchanged spec (Capture):\n%s' % (res.violated, res.stdout[-2000:]))
+    raws = sorted(set(common.iter_printed(res)))
+    if not raws:
+        raise common.MachineryError('Capture: TLC printed no behaviour')
+    limit = 20000 if tier == 'quick' else 200000
+    if len(raws) > limit:
+        import random
+        raws = random.Random(common.seed()).sample(raws, limit)
+        out.extra['replay_sampled'] = True
+    infos = common.parallel_map(_capture_one, raws, chunk=200)
+    for info in infos:
+        out.traces += 1
+        out.evaluations += 1
+        out.count_nontrivial(info['key'])
+        if 'bad' in info:
+            out.violation({'kind': 'capture', 'fields': ','.join(sorted({b[0].split('_step_')[0] + '_' + b[0].rsplit('_', 1)[1] for b in info['bad']}))},
+                          {'suppress': info['suppress'], 'enabled': info['enabled'], 'operations': info['ops'], 'disagreements': info['bad']})
+    out.extra['capture_behaviours_replayed'] = len(raws)
+    common.cleanup_scratch()
+    for dev in ('NoPosition', 'TeeWhenSuppressed'):
+        r2 = common.run_tlc('Capture', capture_cfg(7, deviation=(dev,)), timeout=300)
+        common.cleanup_scratch()
+        if not r2.violated:
+            raise common.MachineryError('vacuity control: deviation %s does not violate any invariant of Capture' % dev)
         out.extra.setdefault('deviations_rejected', {})[dev] = r2.violated
 
 
@@ -175,6 +284,7 @@ def run(tier):
     runlib.deviation_must_fail(out, 'C12_Parts', 2, 'NoStdoutRestore')
     zip_phase(out)           # first: no zip import has happened in this process yet
     pathctx_phase(out, tier)
+    capture_phase(out, tier)
     out.assumptions = ['stderr is never swapped by the library; it is compared all the same',
                        'the doctest replaces sys.stdout by assignment inside a part, or closes the capture stream (body kind closeout); verbosity 0..3 rotates '
                        '(from 2 on the output is shown while it is captured)']
